@@ -42,17 +42,122 @@ pub fn capture_conn() -> (Connection<CaptureIo>, Rc<RefCell<Vec<u8>>>) {
     (Connection::connect(io).expect("greeting"), out)
 }
 
+/// A transport whose writes take at most `cap` bytes per call (blocking and async), as a nearly full socket buffer does.
+pub struct LimitedIo {
+    input: Cursor<Vec<u8>>,
+    pub out: Rc<RefCell<Vec<u8>>>,
+    cap: usize,
+}
+
+impl Read for LimitedIo {
+    fn read(&mut self, buf: &mut [u8]) -> std::io::Result<usize> {
+        self.input.read(buf)
+    }
+}
+
+impl Write for LimitedIo {
+    fn write(&mut self, buf: &[u8]) -> std::io::Result<usize> {
+        let n = buf.len().min(self.cap);
+        self.out.borrow_mut().extend_from_slice(&buf[..n]);
+        Ok(n)
+    }
+    fn flush(&mut self) -> std::io::Result<()> {
+        Ok(())
+    }
+}
+
+impl tokio::io::AsyncRead for LimitedIo {
+    fn poll_read(mut self: std::pin::Pin<&mut Self>, _cx: &mut std::task::Context<'_>, buf: &mut tokio::io::ReadBuf<'_>) -> std::task::Poll<std::io::Result<()>> {
+        let pos = self.input.position() as usize;
+        let data = self.input.get_ref();
+        if pos >= data.len() {
+            return std::task::Poll::Pending; // the server says nothing more; nobody reads after the greeting here
+        }
+        let n = (data.len() - pos).min(buf.remaining());
+        buf.put_slice(&data[pos..pos + n]);
+        self.input.set_position((pos + n) as u64);
+        std::task::Poll::Ready(Ok(()))
+    }
+}
+
+impl tokio::io::AsyncWrite for LimitedIo {
+    fn poll_write(self: std::pin::Pin<&mut Self>, _cx: &mut std::task::Context<'_>, buf: &[u8]) -> std::task::Poll<std::io::Result<usize>> {
+        let n = buf.len().min(self.cap);
+        self.out.borrow_mut().extend_from_slice(&buf[..n]);
+        std::task::Poll::Ready(Ok(n))
+    }
+    fn poll_flush(self: std::pin::Pin<&mut Self>, _cx: &mut std::task::Context<'_>) -> std::task::Poll<std::io::Result<()>> {
+        std::task::Poll::Ready(Ok(()))
+    }
+    fn poll_shutdown(self: std::pin::Pin<&mut Self>, _cx: &mut std::task::Context<'_>) -> std::task::Poll<std::io::Result<()>> {
+        std::task::Poll::Ready(Ok(()))
+    }
+}
+
+fn limited(cap: usize) -> (LimitedIo, Rc<RefCell<Vec<u8>>>) {
+    let out = Rc::new(RefCell::new(Vec::new()));
+    (LimitedIo { input: Cursor::new(b"OK MPD 0.23.5\n".to_vec()), out: out.clone(), cap }, out)
+}
+
+enum Sendable<'a> {
+    One(&'a Command),
+    List(&'a CommandList),
+}
+
+/// What reaches the wire must not depend on the connection flavour or on how many bytes the transport takes per write:
+/// the same request, followed by `ping`, through the blocking and the async connection over transports that take 1, 7
+/// or 64 bytes per call.  Returns a description of the first difference.
+fn wire_differs(what: &Sendable<'_>, expected: &[u8]) -> Option<String> {
+    let mut want = expected.to_vec();
+    want.extend_from_slice(b"ping\n");
+    for cap in [1usize, 7, 64] {
+        let (io, out) = limited(cap);
+        let mut conn = Connection::connect(io).expect("greeting");
+        let r = match what {
+            Sendable::One(c) => conn.send((*c).clone()),
+            Sendable::List(l) => conn.send_list((*l).clone()),
+        };
+        let r2 = conn.send(Command::new("ping"));
+        let got = out.borrow().clone();
+        if r.is_err() || r2.is_err() || got != want {
+            return Some(format!("blocking,{cap}-byte-writes:{}", hex(&got)));
+        }
+        let (io, out) = limited(cap);
+        let rt = tokio::runtime::Builder::new_current_thread().build().unwrap();
+        let ok = rt.block_on(async {
+            let mut conn = mpd_protocol::AsyncConnection::connect(io).await.expect("greeting");
+            let r = match what {
+                Sendable::One(c) => conn.send((*c).clone()).await,
+                Sendable::List(l) => conn.send_list((*l).clone()).await,
+            };
+            let r2 = conn.send(Command::new("ping")).await;
+            r.is_ok() && r2.is_ok()
+        });
+        let got = out.borrow().clone();
+        if !ok || got != want {
+            return Some(format!("async,{cap}-byte-writes:{}", hex(&got)));
+        }
+    }
+    None
+}
+
 pub fn sent_bytes(c: &Command) -> Vec<u8> {
     let (mut conn, out) = capture_conn();
     conn.send(c.clone()).unwrap();
     let v = out.borrow().clone();
+    if let Some(d) = wire_differs(&Sendable::One(c), &v) {
+        return format!("WIRE-DIFFERS {d} whole-writes:{}", hex(&v)).into_bytes();
+    }
     v
 }
 
 pub fn sent_list_bytes(l: CommandList) -> Vec<u8> {
     let (mut conn, out) = capture_conn();
-    conn.send_list(l).unwrap();
+    conn.send_list(l.clone()).unwrap();
     let v = out.borrow().clone();
+    if let Some(d) = wire_differs(&Sendable::List(&l), &v) {
+        return format!("WIRE-DIFFERS {d} whole-writes:{}", hex(&v)).into_bytes();
+    }
     v
 }
 
@@ -125,10 +230,21 @@ pub fn run(toks: &[&str]) -> String {
     match toks[0] {
         "cmd_build" => {
             let Some(name) = unhex_str(toks[1]) else { return "skip non-utf8".into() };
+            // the panicking constructor must accept exactly what the checked one accepts, and build the same command
+            let via_new = catch(|| Command::new(&name)).ok().map(|c| hex(&sent_bytes(&c)));
             match catch(|| Command::build(&name)) {
                 Err(p) => format!("panic {}", hex(p.as_bytes())),
-                Ok(Ok(c)) => format!("ok {}", hex(&sent_bytes(&c))),
-                Ok(Err(e)) => err_kind(&e),
+                Ok(Ok(c)) => {
+                    let sent = hex(&sent_bytes(&c));
+                    match via_new {
+                        Some(n) if n == sent => format!("ok {sent}"),
+                        other => format!("INCONSISTENT build=ok:{sent} new={}", other.unwrap_or_else(|| "panic".into())),
+                    }
+                }
+                Ok(Err(e)) => match via_new {
+                    None => err_kind(&e),
+                    Some(n) => format!("INCONSISTENT build={} new=ok:{n}", err_kind(&e).replace(' ', "_")),
+                },
             }
         }
         // cmd_args <hexname> <spec>... : result of every add_argument and the bytes sent after it
